@@ -165,6 +165,7 @@ package nutsdb
 
 //@ func ReadBucketMeta
 //@   ensures[C21] err != nil ==> bucketMeta == nil
+//@   ensures[C21] err == nil ==> bucketMeta != nil
 //@   at return: assert[C21] bucketMeta != nil && err == nil ==> fresh(bucketMeta) && le32(buf, 4) == bucketMeta.startSize && le32(buf, 8) == bucketMeta.endSize &&
 //@        bucketMeta.crc == le32(buf, 0) && bucketMeta.crc == crcUpd(crcUpd(crcUpd(0, string(buf[4:])), string(bucketMeta.start)), string(bucketMeta.end)) &&
 //@        len(bucketMeta.start) == bucketMeta.startSize && len(bucketMeta.end) == bucketMeta.endSize
@@ -981,18 +982,14 @@ package nutsdb
 
 //@ func Tx.Get
 //@   requires txOK(tx) && (tx.db != nil ==> treesOK(tx.db))
+//@   requires tx.db != nil && tx.db.opt.EntryIdxMode == HintBPTSparseIdxMode ==> sparseOK(tx.db)
 //@   ensures[C12,C20] tx.db == nil ==> err == ErrTxClosed
 //@   ensures[C01] err != nil ==> e == nil
 //@   at return: assert[C01,C12,C19] err == nil && tx.db.opt.EntryIdxMode != HintBPTSparseIdxMode ==> has(tx.db.BPTreeIdx, bucket) && liveRec(r) &&
 //@        has(tx.db.committedTxIds, r.H.meta.txID) && (tx.db.opt.EntryIdxMode == HintKeyValAndRAMIdxMode ==> e == r.E) &&
 //@        (tx.db.opt.EntryIdxMode == HintKeyAndRAMIdxMode ==> lastReadOff == r.H.dataPos)
-//@   modifies lastReadOff
+//@   modifies lastReadOff, elems(tx.db.BPTreeRootIdxes)
 //@   safety[C20] panics
-
-//@ func Tx.getByHintBPTSparseIdx
-//@   assumed sparse-mode lookup (active tree, then sealed segments through the on-disk index); C02, not yet under contract
-//@   ensures err != nil ==> e == nil
-//@   modifies lastReadOff
 
 //@ func Tx.Delete
 //@   requires txOK(tx)
@@ -1134,50 +1131,54 @@ package nutsdb
 //@   at stored pointers: assert[C01,C03] len(pointers) > 0 ==> pointers[len(pointers) - 1] == n.pointers[i]
 //@   at stored numFound: assert[C03] numFound > 0 ==> liveRec(ifaceval(n.pointers[i], Record))
 
-//@ func Tx.prefixScanByHintBPTSparseIdx
-//@   assumed sparse-mode prefix scan (C02/C03 sparse part, not yet under contract)
-//@   modifies lastReadOff
-//@ func Tx.prefixSearchScanByHintBPTSparseIdx
-//@   assumed sparse-mode prefix+regexp scan (not yet under contract)
-//@   modifies lastReadOff
 //@ func Tx.rangeScanOnDisk
-//@   assumed sparse-mode range scan over the sealed segments (not yet under contract)
-//@   modifies lastReadOff
-//@ func processEntriesScanOnDisk
-//@   assumed sparse-mode merge of per-segment scan results (not yet under contract)
-//@   modifies nothing
-//@ func Tx.getAllByHintBPTSparseIdx
-//@   assumed sparse-mode GetAll (not yet under contract)
-//@   modifies lastReadOff
-
-//@ func Tx.PrefixScan
-//@   requires txOK(tx) && (tx.db != nil ==> treesOK(tx.db) && nodesOK(nil))
-//@   ensures[C12,C20] tx.db == nil ==> err == ErrTxClosed
-//@   ensures[C03] err == nil && tx.db.opt.EntryIdxMode != HintBPTSparseIdxMode ==> len(es) > 0 && (limitNum > 0 ==> len(es) <= limitNum)
-//@   ensures[C03] err != nil && tx.db != nil && tx.db.opt.EntryIdxMode != HintBPTSparseIdxMode ==> es == nil
-//@   modifies[C03,C12] lastReadOff
-//@   safety[C20] panics
-//@ func Tx.PrefixSearchScan
-//@   requires txOK(tx) && (tx.db != nil ==> treesOK(tx.db) && nodesOK(nil))
-//@   ensures[C12,C20] tx.db == nil ==> err == ErrTxClosed
-//@   ensures[C03] err == nil && tx.db.opt.EntryIdxMode != HintBPTSparseIdxMode ==> len(es) > 0 && (limitNum > 0 ==> len(es) <= limitNum)
-//@   modifies[C03,C12] lastReadOff
-//@   safety[C20] panics
-//@ func Tx.GetAll
-//@   requires txOK(tx) && (tx.db != nil ==> treesOK(tx.db))
-//@   ensures[C12,C20] tx.db == nil ==> err == ErrTxClosed
-//@   ensures[C01] err == nil && tx.db.opt.EntryIdxMode != HintBPTSparseIdxMode ==> len(entries) > 0
-//@   modifies[C01,C12] lastReadOff
-//@   safety[C20] panics
-//@ func Tx.RangeScan
-//@   requires txOK(tx) && (tx.db != nil ==> treesOK(tx.db) && tx.db.ActiveBPTreeIdx != nil)
-//@   ensures[C12,C20] tx.db == nil ==> err == ErrTxClosed
-//@   modifies[C01,C12] lastReadOff
+//@   requires tx != nil && tx.db != nil && rootIdxesOK(tx.db)
+//@   ensures rootIdxesOK(tx.db)
+//@   ensures[C02] result1 == nil ==> entsOK(result0)
+//@   modifies lastReadOff, elems(tx.db.BPTreeRootIdxes)
 //@   safety[C20] panics
 //@   loops 1
 //@   loop 1: modifies lastReadOff
+//@   loop 1: invariant -1 <= rangeindex && rangeindex < len(bptSparseIdxGroup) && tx == old(tx) && tx.db == old(tx.db) && bptSparseIdxGroup == pre(bptSparseIdxGroup) &&
+//@        (forall k int :: 0 <= k && k < len(bptSparseIdxGroup) ==> bptSparseIdxGroup[k] != nil) && (arr(result) == arr(pre(result)) || sinceLoop(result)) && entsOK(result)
+//@   branch 2: iff[C02] cmp(bptSparseIdx.start, newEnd) <= 0
+//@   branch 3: iff[C02] cmp(newStart, bptSparseIdx.end) <= 0
+//@   at call findRangeOnDisk: assert[C02] $arg3 == start && $arg4 == end && string($arg5) == concat(bucket, string(start)) && string($arg6) == concat(bucket, string(end))
+//@ func Tx.PrefixScan
+//@   requires txOK(tx) && (tx.db != nil ==> treesOK(tx.db) && nodesOK(nil))
+//@   requires tx.db != nil && tx.db.opt.EntryIdxMode == HintBPTSparseIdxMode ==> sparseOK(tx.db)
+//@   ensures[C12,C20] tx.db == nil ==> err == ErrTxClosed
+//@   ensures[C03] err == nil && tx.db.opt.EntryIdxMode != HintBPTSparseIdxMode ==> len(es) > 0 && (limitNum > 0 ==> len(es) <= limitNum)
+//@   ensures[C03] err != nil && tx.db != nil && tx.db.opt.EntryIdxMode != HintBPTSparseIdxMode ==> es == nil
+//@   modifies[C03,C12] lastReadOff, elems(tx.db.BPTreeRootIdxes)
+//@   safety[C20] panics
+//@ func Tx.PrefixSearchScan
+//@   requires txOK(tx) && (tx.db != nil ==> treesOK(tx.db) && nodesOK(nil))
+//@   requires tx.db != nil && tx.db.opt.EntryIdxMode == HintBPTSparseIdxMode ==> sparseOK(tx.db)
+//@   ensures[C12,C20] tx.db == nil ==> err == ErrTxClosed
+//@   ensures[C03] err == nil && tx.db.opt.EntryIdxMode != HintBPTSparseIdxMode ==> len(es) > 0 && (limitNum > 0 ==> len(es) <= limitNum)
+//@   modifies[C03,C12] lastReadOff, elems(tx.db.BPTreeRootIdxes)
+//@   safety[C20] panics
+//@ func Tx.GetAll
+//@   requires txOK(tx) && (tx.db != nil ==> treesOK(tx.db))
+//@   requires tx.db != nil && tx.db.opt.EntryIdxMode == HintBPTSparseIdxMode ==> sparseOK(tx.db)
+//@   ensures[C12,C20] tx.db == nil ==> err == ErrTxClosed
+//@   ensures[C01] err == nil && tx.db.opt.EntryIdxMode != HintBPTSparseIdxMode ==> len(entries) > 0
+//@   modifies[C01,C12] lastReadOff, elems(tx.db.BPTreeRootIdxes)
+//@   safety[C20] panics
+//@ func Tx.RangeScan
+//@   requires txOK(tx) && (tx.db != nil ==> treesOK(tx.db) && tx.db.ActiveBPTreeIdx != nil)
+//@   requires tx.db != nil && tx.db.opt.EntryIdxMode == HintBPTSparseIdxMode ==> sparseOK(tx.db)
+//@   ensures[C12,C20] tx.db == nil ==> err == ErrTxClosed
+//@   ensures[C01,C02] err != nil ==> es == nil
+//@   modifies[C01,C12] lastReadOff, elems(tx.db.BPTreeRootIdxes)
+//@   safety[C20] panics
+//@   at store es in loop 1: assume item != nil && item.Meta != nil
+//@   at call processEntriesScanOnDisk: assume entsOK($arg0)
+//@   loops 1
+//@   loop 1: modifies lastReadOff
 //@   loop 1: invariant -1 <= rangeindex && rangeindex < len(records) && tx == old(tx) && tx.db == old(tx.db) && records == pre(records) && recsOK(records) &&
-//@        (arr(es) == arr(pre(es)) || sinceLoop(es))
+//@        (arr(es) == arr(pre(es)) || sinceLoop(es)) && entsOK(es)
 
 // ---------------------------------------------------------------------------
 // Index appliers (C04, C05, C06, C08, C13, C20): the commit-time appliers (Tx.build*Idx) and the open-time
@@ -1452,3 +1453,155 @@ package nutsdb
 //@   ensures[C13] err == nil ==> a == old(tx.db.SortedSetIdx[bucket].tail)
 //@   ensures[C13] err == nil ==> a != b
 //@   modifies everything
+
+// ---------------------------------------------------------------------------
+// Sparse index mode (C02, C04): routing of reads to segments. The on-disk walkers (FindOnDisk, FindLeafOnDisk,
+// findRangeOnDisk, findPrefixOnDisk, FindTxIDOnDisk, ReadNode) read node files written by earlier commits and
+// stay assumed contracts; what is decided here is which segments a read consults and with which composite key.
+//@ spec func rootIdxesOK(db *DB) bool = forall k int :: 0 <= k && k < len(db.BPTreeRootIdxes) ==> db.BPTreeRootIdxes[k] != nil
+//@ func getNewKey
+//@   at return: assume string(newKey) == concat(bucket, string(key)) && len(newKey) == len(bucket) + len(key)
+//@   ensures[C02,C04] string(result) == concat(bucket, string(key)) && fresh(result) && allocated(result) && len(result) == len(bucket) + len(key)
+//@   ensures[C04] forall b2 string, k2 string :: len(k2) > 0 && len(key) > 0 && string(result) == concat(b2, k2) ==> b2 == bucket
+//@   modifies nothing
+//@   safety[C20] panics
+//@ func SortFID
+//@   assumed sorts the slice in place with the given comparison (sort.Sort on a wrapper type)
+//@   ensures forall k int :: 0 <= k && k < len(BPTreeRootIdxGroup) ==> BPTreeRootIdxGroup[k] != nil
+//@   requires forall k int :: 0 <= k && k < len(BPTreeRootIdxGroup) ==> BPTreeRootIdxGroup[k] != nil
+//@   modifies elems(BPTreeRootIdxGroup)
+//@ func Tx.findRangeOnDisk
+//@   assumed on-disk walker: leaf walk of one sealed segment's node file
+//@   ensures forall k int :: 0 <= k && k < len(es) ==> es[k] != nil && es[k].Meta != nil
+//@   modifies lastReadOff
+
+//@ spec func sparseOK(db *DB) bool = db.ActiveBPTreeIdx != nil && db.ActiveCommittedTxIdsIdx != nil && rootIdxesOK(db) && nodesOK(nil)
+//@ func DB.getDataPath
+//@   modifies nothing
+//@   pure
+//@ func Tx.FindOnDisk
+//@   assumed on-disk walker: point lookup in one sealed segment's node file
+//@   ensures err != nil ==> entry == nil
+//@   ensures entry != nil ==> entry.Meta != nil
+//@   modifies lastReadOff
+//@ func Tx.FindTxIDOnDisk
+//@   assumed on-disk walker: lookup of a transaction id in one sealed segment's tx-id node file
+//@   modifies nothing
+//@ func Tx.findPrefixOnDisk
+//@   assumed on-disk walker: prefix walk over the leaves of one sealed segment
+//@   ensures forall k int :: 0 <= k && k < len(es) ==> es[k] != nil && es[k].Meta != nil
+//@   modifies lastReadOff
+//@ func Tx.findPrefixSearchOnDisk
+//@   assumed on-disk walker: prefix + regexp walk over the leaves of one sealed segment
+//@   ensures forall k int :: 0 <= k && k < len(es) ==> es[k] != nil && es[k].Meta != nil
+//@   modifies lastReadOff
+//@ func SortedEntryKeys
+//@   assumed returns the keys of the map in ascending order together with the map (sort.Strings)
+//@   ensures es == m && (forall k int :: 0 <= k && k < len(keys) ==> has(m, keys[k]))
+//@   modifies nothing
+
+//@ func Tx.getByHintBPTSparseIdxInMem
+//@   requires tx != nil && tx.db != nil && sparseOK(tx.db)
+//@   ensures[C02] err != nil ==> e == nil
+//@   ensures[C02] e != nil ==> e.Meta != nil
+//@   modifies lastReadOff
+//@   safety[C20] panics
+
+//@ func Tx.getByHintBPTSparseIdxOnDisk
+//@   requires tx != nil && tx.db != nil && sparseOK(tx.db)
+//@   ensures[C02] err != nil ==> e == nil
+//@   ensures[C02] e != nil ==> e.Meta != nil && e.Meta.Flag != DataDeleteFlag && !expiredAt(e.Meta.TTL, e.Meta.timestamp, clock)
+//@   modifies lastReadOff
+//@   safety[C20] panics
+//@   loops 2
+//@   loop 1: modifies nothing
+//@   loop 1: invariant -1 <= rangeindex && rangeindex < len(tx.db.BPTreeRootIdxes) && tx == old(tx) && tx.db == old(tx.db) && sinceLoop(bptSparseIdxGroup) &&
+//@        (forall k int :: 0 <= k && k < len(bptSparseIdxGroup) ==> bptSparseIdxGroup[k] != nil)
+//@   loop 2: modifies lastReadOff
+//@   loop 2: invariant -1 <= rangeindex@2 && rangeindex@2 < len(bptSparseIdxGroup) && tx == old(tx) && tx.db == old(tx.db) && bptSparseIdxGroup == pre(bptSparseIdxGroup) && key == old(key) && newKey == pre(newKey) &&
+//@        (forall k int :: 0 <= k && k < len(bptSparseIdxGroup) ==> bptSparseIdxGroup[k] != nil) && sparseOK(tx.db)
+//@   at call FindOnDisk: assert[C02] $arg3 == key && string($arg4) == concat(bucket, string(key)) && cmp($arg4, bptSparse.start) >= 0 && cmp($arg4, bptSparse.end) <= 0
+
+//@ func Tx.getByHintBPTSparseIdx
+//@   requires tx != nil && tx.db != nil && sparseOK(tx.db)
+//@   ensures[C02] err != nil ==> e == nil
+//@   ensures[C02] err == nil ==> e != nil && e.Meta != nil && e.Meta.Flag != DataDeleteFlag && !expiredAt(e.Meta.TTL, e.Meta.timestamp, clock)
+//@   modifies lastReadOff
+//@   safety[C20] panics
+
+//@ spec func entsOK(es []*Entry) bool = forall k int :: 0 <= k && k < len(es) ==> es[k] != nil && es[k].Meta != nil
+//@ func processEntriesScanOnDisk
+//@   requires entsOK(entriesTemp)
+//@   ensures[C02] entsOK(result) && (forall k int :: 0 <= k && k < len(result) ==> result[k].Meta.Flag != DataDeleteFlag && !expiredAt(result[k].Meta.TTL, result[k].Meta.timestamp, clock))
+//@   modifies nothing
+//@   safety[C20] panics
+//@   loops 2
+//@   loop 1: modifies entries(entriesMap)
+//@   loop 1: invariant -1 <= rangeindex && rangeindex < len(entriesTemp) && entriesTemp == old(entriesTemp) && entriesMap != nil && fresh(entriesMap) &&
+//@        (forall k string :: has(entriesMap, k) ==> entriesMap[k] != nil && entriesMap[k].Meta != nil)
+//@   loop 2: modifies elems(result)
+//@   loop 2: invariant -1 <= rangeindex@2 && rangeindex@2 < len(keys) && keys == pre(keys) && es == pre(es) && sinceLoop(result) &&
+//@        (forall k int :: 0 <= k && k < len(keys) ==> has(es, keys[k])) && (forall k string :: has(es, k) ==> es[k] != nil && es[k].Meta != nil)
+//@   loop 2: invariant forall k int :: 0 <= k && k < len(result) ==> result[k] != nil && result[k].Meta != nil && result[k].Meta.Flag != DataDeleteFlag && !expiredAt(result[k].Meta.TTL, result[k].Meta.timestamp, clock)
+
+//@ func Tx.prefixScanOnDisk
+//@   requires tx != nil && tx.db != nil && rootIdxesOK(tx.db)
+//@   ensures[C02] result2 == nil ==> entsOK(result0)
+//@   ensures rootIdxesOK(tx.db)
+//@   modifies lastReadOff, elems(tx.db.BPTreeRootIdxes)
+//@   safety[C20] panics
+//@   loops 1
+//@   loop 1: modifies lastReadOff
+//@   loop 1: invariant -1 <= rangeindex && rangeindex < len(bptSparseIdxGroup) && tx == old(tx) && tx.db == old(tx.db) && bptSparseIdxGroup == pre(bptSparseIdxGroup) && limitNum == old(limitNum) &&
+//@        (forall k int :: 0 <= k && k < len(bptSparseIdxGroup) ==> bptSparseIdxGroup[k] != nil) && (arr(result) == arr(pre(result)) || sinceLoop(result)) && entsOK(result)
+//@   at call findPrefixOnDisk: assert[C02,C04] $arg1 == bucket && $arg4 == prefix && string($arg5) == concat(bucket, string(prefix))
+//@   branch 2: iff[C02] cmp(newPrefix, bptSparseIdx.start) <= 0
+//@   branch 3: iff[C02] cmp(newPrefix, bptSparseIdx.end) <= 0
+
+//@ func Tx.prefixSearchScanOnDisk
+//@   requires tx != nil && tx.db != nil && rootIdxesOK(tx.db)
+//@   ensures[C02] result2 == nil ==> entsOK(result0)
+//@   ensures rootIdxesOK(tx.db)
+//@   modifies lastReadOff, elems(tx.db.BPTreeRootIdxes)
+//@   safety[C20] panics
+//@   loops 1
+//@   loop 1: modifies lastReadOff
+//@   loop 1: invariant -1 <= rangeindex && rangeindex < len(bptSparseIdxGroup) && tx == old(tx) && tx.db == old(tx.db) && bptSparseIdxGroup == pre(bptSparseIdxGroup) && limitNum == old(limitNum) &&
+//@        (forall k int :: 0 <= k && k < len(bptSparseIdxGroup) ==> bptSparseIdxGroup[k] != nil) && (arr(result) == arr(pre(result)) || sinceLoop(result)) && entsOK(result)
+//@   at call findPrefixSearchOnDisk: assert[C02,C04] $arg1 == bucket && $arg4 == prefix && string($arg6) == concat(bucket, string(prefix))
+//@   branch 2: iff[C02] cmp(newPrefix, bptSparseIdx.start) <= 0
+//@   branch 3: iff[C02] cmp(newPrefix, bptSparseIdx.end) <= 0
+
+//@ func Tx.prefixScanByHintBPTSparseIdx
+//@   requires tx != nil && tx.db != nil && sparseOK(tx.db)
+//@   ensures[C02] err != nil ==> es == nil
+//@   ensures[C02] err == nil ==> entsOK(es)
+//@   modifies lastReadOff, elems(tx.db.BPTreeRootIdxes)
+//@   safety[C20] panics
+//@   at store es in loop 1: assume item != nil && item.Meta != nil
+//@   branch 8: implied-by[C02] limitNum > 0 && limitNum > len(es)
+//@   branch 9: iff[C02] limitNum <= 0
+//@   loops 1
+//@   loop 1: modifies lastReadOff
+//@   loop 1: invariant -1 <= rangeindex && rangeindex < len(records) && tx == old(tx) && tx.db == old(tx.db) && records == pre(records) && recsOK(records) && limitNum == old(limitNum) &&
+//@        (arr(es) == arr(pre(es)) || sinceLoop(es)) && entsOK(es)
+
+//@ func Tx.prefixSearchScanByHintBPTSparseIdx
+//@   requires tx != nil && tx.db != nil && sparseOK(tx.db)
+//@   ensures[C02] err != nil ==> es == nil
+//@   ensures[C02] err == nil ==> entsOK(es)
+//@   modifies lastReadOff, elems(tx.db.BPTreeRootIdxes)
+//@   safety[C20] panics
+//@   at store es in loop 1: assume item != nil && item.Meta != nil
+//@   branch 8: implied-by[C02] limitNum > 0 && limitNum > len(es)
+//@   branch 9: iff[C02] limitNum <= 0
+//@   loops 1
+//@   loop 1: modifies lastReadOff
+//@   loop 1: invariant -1 <= rangeindex && rangeindex < len(records) && tx == old(tx) && tx.db == old(tx.db) && records == pre(records) && recsOK(records) && limitNum == old(limitNum) &&
+//@        (arr(es) == arr(pre(es)) || sinceLoop(es)) && entsOK(es)
+
+//@ func Tx.getAllByHintBPTSparseIdx
+//@   requires txOK(tx) && tx.db != nil && treesOK(tx.db) && sparseOK(tx.db)
+//@   ensures[C02] err != nil ==> entries == nil
+//@   modifies lastReadOff, elems(tx.db.BPTreeRootIdxes)
+//@   safety[C20] panics
